@@ -23,6 +23,11 @@ func verifChoice(name string, n int) int
 // verifItoa: decimal text of v as an integer-format atom (strconv round-trip contract).
 func verifItoa(v int64) string
 
+// verifFtoa: the shortest round-trip decimal text of a finite float64 (strconv.FormatFloat(f, 'g', -1, 64)) as a
+// float-format atom: strconv.ParseFloat of it gives f back (strconv contract). f must be math.Float64frombits of a
+// solver variable and assumed finite.
+func verifFtoa(f float64) string
+
 func verifAssume(c bool)
 func verifAssert(c bool, label string)
 func verifFail(label string)
